@@ -1340,4 +1340,23 @@ theorem flatMap_tbFrameStr (frames : List Callpoint) : frames.flatMap tbFrameStr
   | nil => rfl
   | cons c cs ih => simp [List.flatMap_cons, tbFrameStr_eq_std, ih]
 
+/-! ## the frame walk: linecache lookups of `_DeferredLine` and of the traceback module -/
+
+set_option linter.unusedSimpArgs false in
+/-- outside the one state `LookOK` excludes, checkcache + getline(with the loader) and
+    lazycache + checkcache + getline(without globals) find the same line -/
+theorem deferredRaw_eq_stdRaw (path : Str) (k : Look) (h : LookOK k = true) :
+    deferredRaw path k = stdRaw path k := by
+  obtain ⟨c, d, l⟩ := k
+  unfold deferredRaw stdRaw
+  cases c <;> cases d <;> cases l <;>
+    simp only [LookOK, checkcache, lazycache, getline, updatecache] at h ⊢ <;>
+    (try split) <;> (try split) <;> simp_all [lazycache, getline, updatecache, checkcache]
+
+theorem walkB_eq_walkS (e : TbEntry) (h : LookOK e.look = true) : walkB e = walkS e := by
+  unfold walkB walkS; rw [deferredRaw_eq_stdRaw _ _ h]
+
+theorem map_walk_eq (tb : List TbEntry) (h : ∀ e ∈ tb, LookOK e.look = true) : tb.map walkB = tb.map walkS :=
+  List.map_congr_left fun e he => walkB_eq_walkS e (h e he)
+
 end C16
